@@ -7,7 +7,7 @@ from suites import run_suite, parse_snap, exp_silent
 
 LEAN_MODULES = ['GoSnaps.Props.C08', 'GoSnaps.Props.Tie.Skip', 'GoSnaps.Props.Tie.TestID', 'GoSnaps.Props.Tie.CleanIO', 'GoSnaps.Props.Tie.CleanTopIO1', 'GoSnaps.Props.Tie.CleanTopIO2', 'GoSnaps.Props.Tie.CleanTopIO3', 'GoSnaps.Props.Tie.CleanTopIO']
 
-TESTS = ['TestV2', 'TestA/case_2', 'TestA/x#01', 'TestA', 'TestA/x', 'TestA/x/deep', 'TestA/y', 'TestAB', 'TestAB/x', 'TestB', 'TestB/A_case', 'TestB/sub', 'TestC/TestA', 'TestZed']
+TESTS = ['TestAPI', 'TestAPI//users', 'TestAPI//users/list', 'TestAPI/v1./x', 'TestV2', 'TestA/case_2', 'TestA/x#01', 'TestA', 'TestA/x', 'TestA/x/deep', 'TestA/y', 'TestAB', 'TestAB/x', 'TestB', 'TestB/A_case', 'TestB/sub', 'TestC/TestA', 'TestZed']
 PATTERNS = ['', '', 'TestA', '^TestA$', 'TestA/x', 'TestA|TestB', 'A', 'TestB/sub', '^TestZ', 'Test[AB]$', 'TestA/[xy]', 'Nothing', 'TestA$/x$', '(TestA|TestZed)/x']
 
 
@@ -90,13 +90,14 @@ def make_spec(g):
     for t in list(tests):
         parts = t.split('/')
         for k in range(1, len(parts)):
-            if '/'.join(parts[:k]) not in tests:
+            # (a subtest named after a route - t.Run("/users", ...) - gives `TestAPI//users`: there is no test `TestAPI/`)
+            if '/'.join(parts[:k]) not in tests and not '/'.join(parts[:k]).endswith('/'):
                 tests.append('/'.join(parts[:k]))
     force_skip = []
     if r.random() < 0.2:
         # two skipped tests whose names are related (`x` and `x#01`, `TestA` and `TestAB`) around a
         # descendant of the shorter one: the skip list is searched for ANY ancestor, whatever else it holds
-        fam = r.choice([['TestA', 'TestA/x', 'TestA/x#01', 'TestA/x/deep'], ['TestA', 'TestAB', 'TestA/x', 'TestAB/x', 'TestA/y'],
+        fam = r.choice([['TestAPI', 'TestAPI//users', 'TestAPI//users/list', 'TestAPI/v1./x'], ['TestA', 'TestA/x', 'TestA/x#01', 'TestA/x/deep'], ['TestA', 'TestAB', 'TestA/x', 'TestAB/x', 'TestA/y'],
                         ['TestB', 'TestB/A_case', 'TestB/sub', 'TestA', 'TestA/x', 'TestA/x/deep']])
         tests = sorted(set(tests) | set(fam))
         force_skip = r.choice([fam[1:3], [fam[0], fam[1]], [fam[1]], fam[1:3] + [fam[-1]]])
